@@ -431,6 +431,107 @@ pub fn run(tier: Tier) {
         round_trip(&ctx, "operator-op-sequence", name, &item, true, &counters);
     }
 
+    // ---------------- (3c) AST-first operator trees: every pair (thorough: triple) of infix operators in both
+    // nestings, as op sequences with parentheses exactly where the specification's precedence table
+    // (|| < && < comparisons (non-associative) < ^ < | < & < + - < * /, left-associative) requires them.
+    // The parser is not involved in building these, so a parser / printer pair that is self-consistent but
+    // disagrees with the table is seen.
+    {
+        let infix: Vec<(&str, B, u8)> = vec![
+            ("||", B::LazyOr, 0),
+            ("&&", B::LazyAnd, 1),
+            ("<=", B::LessOrEqual, 2),
+            (">=", B::GreaterOrEqual, 2),
+            ("<", B::LessThan, 2),
+            (">", B::GreaterThan, 2),
+            ("===", B::Equal, 2),
+            ("!==", B::NotEqual, 2),
+            ("==", B::HeterogeneousEqual, 2),
+            ("!=", B::HeterogeneousNotEqual, 2),
+            ("^", B::BitwiseXor, 3),
+            ("|", B::BitwiseOr, 4),
+            ("&", B::BitwiseAnd, 5),
+            ("+", B::Add, 6),
+            ("-", B::Sub, 6),
+            ("*", B::Mul, 7),
+            ("/", B::Div, 7),
+        ];
+        #[derive(Clone)]
+        enum T {
+            Leaf(i64),
+            Node(Box<T>, usize, Box<T>),
+        }
+        // does `child` need parentheses as the left / right operand of operator `parent`?
+        fn needs_parens(child: &T, parent: usize, right_side: bool, infix: &[(&str, B, u8)]) -> bool {
+            match child {
+                T::Leaf(_) => false,
+                T::Node(_, op, _) => {
+                    let (lc, lp) = (infix[*op].2, infix[parent].2);
+                    if lc < lp {
+                        true
+                    } else if lc > lp {
+                        false
+                    } else {
+                        // same level: left-associative, comparisons do not chain at all
+                        lp == 2 || right_side
+                    }
+                }
+            }
+        }
+        fn emit(t: &T, infix: &[(&str, B, u8)], out: &mut Vec<b::Op>) {
+            match t {
+                T::Leaf(i) => out.push(b::Op::Value(b::int(*i))),
+                T::Node(l, op, r) => {
+                    emit(l, infix, out);
+                    if needs_parens(l, *op, false, infix) {
+                        out.push(b::Op::Unary(b::Unary::Parens));
+                    }
+                    let mut right = vec![];
+                    emit(r, infix, &mut right);
+                    if needs_parens(r, *op, true, infix) {
+                        right.push(b::Op::Unary(b::Unary::Parens));
+                    }
+                    if infix[*op].2 <= 1 {
+                        out.push(b::Op::Closure(vec![], right));
+                    } else {
+                        out.extend(right);
+                    }
+                    out.push(b::Op::Binary(infix[*op].1.clone()));
+                }
+            }
+        }
+        let n = infix.len();
+        let mut trees: Vec<(String, T)> = vec![];
+        for a in 0..n {
+            for c in 0..n {
+                trees.push((format!("({} then {}) left-nested", infix[a].0, infix[c].0), T::Node(Box::new(T::Node(Box::new(T::Leaf(1)), a, Box::new(T::Leaf(2)))), c, Box::new(T::Leaf(3)))));
+                trees.push((format!("({} then {}) right-nested", infix[a].0, infix[c].0), T::Node(Box::new(T::Leaf(1)), a, Box::new(T::Node(Box::new(T::Leaf(2)), c, Box::new(T::Leaf(3)))))));
+            }
+        }
+        if tier == Tier::Thorough {
+            for a in 0..n {
+                for c in 0..n {
+                    for d in 0..n {
+                        let l = |x: i64| Box::new(T::Leaf(x));
+                        // the five binary tree shapes over four leaves
+                        trees.push((format!("{} {} {} shape1", infix[a].0, infix[c].0, infix[d].0), T::Node(Box::new(T::Node(Box::new(T::Node(l(1), a, l(2))), c, l(3))), d, l(4))));
+                        trees.push((format!("{} {} {} shape2", infix[a].0, infix[c].0, infix[d].0), T::Node(Box::new(T::Node(l(1), a, Box::new(T::Node(l(2), c, l(3))))), d, l(4))));
+                        trees.push((format!("{} {} {} shape3", infix[a].0, infix[c].0, infix[d].0), T::Node(Box::new(T::Node(l(1), a, l(2))), c, Box::new(T::Node(l(3), d, l(4))))));
+                        trees.push((format!("{} {} {} shape4", infix[a].0, infix[c].0, infix[d].0), T::Node(l(1), a, Box::new(T::Node(Box::new(T::Node(l(2), c, l(3))), d, l(4))))));
+                        trees.push((format!("{} {} {} shape5", infix[a].0, infix[c].0, infix[d].0), T::Node(l(1), a, Box::new(T::Node(l(2), c, Box::new(T::Node(l(3), d, l(4))))))));
+                    }
+                }
+            }
+        }
+        trees.par_iter().for_each(|(name, t)| {
+            let mut ops = vec![];
+            emit(t, &infix, &mut ops);
+            let item = Item::Check(b::Check { queries: vec![q(vec![b::pred("p", &[b::var("x")])], vec![b::Expression { ops }], vec![])], kind: b::CheckKind::One });
+            let class = if name.contains("shape") { "three-operators".to_string() } else { name.clone() };
+            round_trip(&ctx, "operator-tree", &class, &item, !name.contains("shape"), &counters);
+        });
+    }
+
     // ---------------- (4) items: scopes, check kinds, alternatives, policies
     let mut items: Vec<(String, Item)> = vec![];
     let scope_sets: Vec<(&str, Vec<b::Scope>)> = vec![
@@ -506,7 +607,7 @@ pub fn run(tier: Tier) {
         "authorizer_dump_round_trips": counters.authorizer_paths.load(Ordering::Relaxed),
         "exhaustive": true,
         "samples": samples_out.take(),
-        "rule": "every string up to the length bound over a 16-character hostile alphabet in every string position (plain / set member / array member / map key / map value x fact / rule head / rule body / check / policy / expression operand); every term of nesting depth <= 2 over all kinds in every position; every expression derivation up to the depth bound generated as source text and parsed to obtain its AST (every infix operator, method, unary, closure, with every shape as either operand, bare and parenthesised); every operator as a hand-built op sequence; rules / checks of the three kinds / policies with 1-2 alternatives and every scope set incl. both key algorithms; blocks with block-level scopes. Oracle: parse(print(x)) == x and print(parse(print(x))) == print(x) through the builder Display, through Biscuit::print_block_source -> BlockBuilder::code on a reloaded token, and through (Authorizer|AuthorizerBuilder)::dump_code -> AuthorizerBuilder::code. distinct_nontrivial = distinct items round-tripped",
+        "rule": "every string up to the length bound over a 16-character hostile alphabet in every string position (plain / set member / array member / map key / map value x fact / rule head / rule body / check / policy / expression operand); every term of nesting depth <= 2 over all kinds in every position; every expression derivation up to the depth bound generated as source text and parsed to obtain its AST (every infix operator, method, unary, closure, with every shape as either operand, bare and parenthesised); every operator as a hand-built op sequence; every pair (thorough: every triple in the five tree shapes) of the 17 infix operators in both nestings as AST-first op sequences whose parentheses follow the specification's precedence table, not the parser; rules / checks of the three kinds / policies with 1-2 alternatives and every scope set incl. both key algorithms; blocks with block-level scopes. Oracle: parse(print(x)) == x and print(parse(print(x))) == print(x) through the builder Display, through Biscuit::print_block_source -> BlockBuilder::code on a reloaded token, and through (Authorizer|AuthorizerBuilder)::dump_code -> AuthorizerBuilder::code. distinct_nontrivial = distinct items round-tripped",
     });
     ctx.finish("exploration", cov, vec!["dates are limited to RFC 3339 years 0000-9999 (the grammar's date literal)".into(), "op sequences that no source text produces are reported under operator-op-sequence".into()]);
 }
